@@ -1,11 +1,11 @@
 SPECIFICATION Spec
 CONSTANTS
   NaN = NaN
-  Progs <- Progs2
+  Progs <- ProgsCorner
   Resources <- Res
   Globals <- NoGlobals
   Data0 <- D2
   LoneSpelled <- LoneSet
-  Styles <- StylesAll
+  Styles <- StylesCorner
 INVARIANTS RefInv ReversalInv CountInv RoundTripInv ExpansionInv Emit
 CHECK_DEADLOCK FALSE
